@@ -81,3 +81,24 @@ package storage
 //@   ensures[C08] err == nil && m.lastSeqNum < wal.MaxSequenceNumber ==> m.wal != nil && m.wal.nextSequence > m.lastSeqNum && m.wal.nextSequence >= 1
 //@ func (*Manager).GetStorageStats
 //@   ensures[C08] m.lastSeqNum == old(m.lastSeqNum)
+
+// ---- C01: reads go through the layers newest first: the memtable pool (active, then immutables newest to
+// oldest), then the table files from the last loaded/flushed (newest) to the first; the first layer that holds
+// the key decides, and a deletion marker in it reads as not-found without consulting older layers.
+// hit = index of the table file that decided the lookup (-1: none); ghost, set where the key was matched
+//@ ghost field (*Manager) hit int
+//@ predicate NoMemHas(m *Manager, k bstr) = !m.memTablePool.active.has[k] && (forall i int :: 0 <= i && i < len(m.memTablePool.immutables) ==> !m.memTablePool.immutables[i].has[k])
+//@ predicate PoolOK(m *Manager) = m.memTablePool != nil && m.memTablePool.active != nil && lockstate(m.memTablePool.mu) == 0 && lockstate(m.memTablePool.active.mu) == 0 && (forall i int :: 0 <= i && i < len(m.memTablePool.immutables) ==> m.memTablePool.immutables[i] != nil && lockstate(m.memTablePool.immutables[i].mu) == 0)
+//@ func (*Manager).Get
+//@   requires PoolOK(m) && !m.closed && (forall i int :: 0 <= i && i < len(m.sstables) ==> m.sstables[i] != nil)
+//@   ensures[C01] m.memTablePool.active.has[bstr(key)] && m.memTablePool.active.del[bstr(key)] ==> err == ErrKeyNotFound
+//@   ensures[C01] m.memTablePool.active.has[bstr(key)] && !m.memTablePool.active.del[bstr(key)] ==> err == nil && bstr(result0) == m.memTablePool.active.val[bstr(key)]
+//@   ensures[C01] NoMemHas(m, bstr(key)) && m.hit >= 0 ==> m.hit < len(m.sstables) && m.sstables[m.hit].has[bstr(key)] && (forall j int :: m.hit < j && j < len(m.sstables) ==> !m.sstables[j].has[bstr(key)])
+//@   ensures[C01] NoMemHas(m, bstr(key)) && m.hit >= 0 ==> (m.sstables[m.hit].del[bstr(key)] ==> err == ErrKeyNotFound) && (!m.sstables[m.hit].del[bstr(key)] ==> err == nil && bstr(result0) == m.sstables[m.hit].val[bstr(key)])
+//@   ensures[C01] NoMemHas(m, bstr(key)) && m.hit < 0 ==> err == ErrKeyNotFound && (forall i int :: 0 <= i && i < len(m.sstables) ==> !m.sstables[i].has[bstr(key)])
+//@   ghost entry: m.hit = 0 - 1
+//@   ghost after call (*Iterator).IsTombstone#1: m.hit = i
+//@ loop (*Manager).Get#1
+//@   invariant[C01] 0 - 1 <= i && i < len(m.sstables) && NoMemHas(m, bstr(key)) && m.hit == 0 - 1
+//@   invariant[C01] forall j int :: i < j && j < len(m.sstables) ==> !m.sstables[j].has[bstr(key)]
+//@   invariant[C01] forall j int :: 0 <= j && j < len(m.sstables) ==> m.sstables[j] != nil
